@@ -486,6 +486,8 @@ func Act(gs, st map[string]any, id int, sp Spec, text []byte, line, col, off int
 		}
 	case 4:
 		v = id
+	case 5:
+		v = "glog:" + glogOf(gs) // what the globalStore holds (only ever this call's own entries)
 	}
 	return v, err
 }
